@@ -371,3 +371,92 @@ func runPatchControl(m Mutant, repo, verif string) controlResult {
 	res.Detail = "the seeded change compiled but the rule reported no new failing obligation whose key contains " + m.Expect
 	return res
 }
+
+// ---------------------------------------------------------------------------
+// Negative controls: behaviour-preserving refactorings (/verif/benign) on which
+// the property's rules must report nothing they do not report on the tree as
+// it is.  A report there is a defect of the checker, not of the repository: it
+// is recorded in the evidence and printed, and does not decide the property.
+
+type negativeResult struct {
+	Name   string   `json:"name"`
+	Status string   `json:"status"` // silent | alarm | skipped
+	Alarms []string `json:"alarms,omitempty"`
+	Detail string   `json:"detail,omitempty"`
+}
+
+func runNegativeControls(pr *Property, repo, verif string) []negativeResult {
+	dirs, _ := filepath.Glob(filepath.Join(verif, "benign", "*", "patch.diff"))
+	if len(dirs) == 0 {
+		return nil
+	}
+	sort.Strings(dirs)
+	base, err := runSub(repo, pr.Rules, "")
+	baseFail := map[string]bool{}
+	if err == nil && base.LoadError == "" {
+		for _, o := range base.Obligations {
+			if o.Verdict == Fail || o.Verdict == Undecided {
+				baseFail[o.Rule+"|"+o.Key] = true
+			}
+		}
+	}
+	results := make([]negativeResult, len(dirs))
+	sem := make(chan struct{}, 6)
+	var wg sync.WaitGroup
+	for i, patch := range dirs {
+		wg.Add(1)
+		go func(i int, patch string) {
+			defer wg.Done()
+			sem <- struct{}{}
+			defer func() { <-sem }()
+			res := negativeResult{Name: filepath.Base(filepath.Dir(patch))}
+			defer func() { results[i] = res }()
+			if err != nil {
+				res.Status, res.Detail = "skipped", "baseline run failed"
+				return
+			}
+			dir, e := os.MkdirTemp("", "evcheck-negative-")
+			if e != nil {
+				res.Status, res.Detail = "skipped", e.Error()
+				return
+			}
+			defer os.RemoveAll(dir)
+			if e := copyTree(repo, dir); e != nil {
+				res.Status, res.Detail = "skipped", e.Error()
+				return
+			}
+			abs, _ := filepath.Abs(patch)
+			ap := exec.Command("git", "apply", "--whitespace=nowarn", abs)
+			ap.Dir = dir
+			ap.Env = append(os.Environ(), "GIT_CEILING_DIRECTORIES="+filepath.Dir(dir))
+			if out, e := ap.CombinedOutput(); e != nil {
+				res.Status, res.Detail = "skipped", "the refactoring no longer applies (the code moved on): "+lastLines(string(out), 1)
+				return
+			}
+			build := exec.Command("go", "build", "./...")
+			build.Dir = dir
+			build.Env = goEnv()
+			if out, e := build.CombinedOutput(); e != nil {
+				res.Status, res.Detail = "skipped", "does not build on this tree: "+lastLines(string(out), 1)
+				return
+			}
+			got, e := runSub(dir, pr.Rules, "")
+			if e != nil || got.LoadError != "" {
+				res.Status, res.Detail = "skipped", fmt.Sprintf("run failed: %v %s", e, got.LoadError)
+				return
+			}
+			for _, o := range got.Obligations {
+				if (o.Verdict == Fail || o.Verdict == Undecided) && !baseFail[o.Rule+"|"+o.Key] {
+					res.Alarms = append(res.Alarms, o.Rule+": "+o.Key)
+				}
+			}
+			if len(res.Alarms) > 0 {
+				res.Status = "alarm"
+			} else {
+				res.Status = "silent"
+			}
+		}(i, patch)
+	}
+	wg.Wait()
+	return results
+}
